@@ -44,6 +44,8 @@ def run(rep):
     suitetrace.validate_suite(rep, "C01", "DWTForward")
     dwtchecks.numeric_vs_pywt(rep, "C01", rep.tier)
     helperchecks.helper_fidelity(rep, "C01", rep.tier)
+    from .. import scalechecks
+    scalechecks.dwt_forward(rep, "C01", rep.tier)          # one to two orders of magnitude larger inputs (size thresholds)
     rep.assumptions += [
         "TLC bounds: see coverage.tlc_runs; beyond them only the recorded executions are checked",
         "PyWavelets (pywt.dwt with indicator taps) pins the Ref layer; disagreement = machinery failure",
